@@ -429,7 +429,7 @@ theorem multiAscending_sound (z : Int) (cs : List Chunk)
         simp only [minAt, maxAt, ha, hb', stored, Option.getD_some]
         exact this }
   have hl := multi_isAsc_lists z cs hok (fun c hc => htruth c hc (hall c hc)) hpairs
-  apply ascending_of_isAsc z (concat cs) (concat_maxs_length cs hwf)
+  apply ascending_of_isAsc z z (concat cs) (concat_maxs_length cs hwf)
   · simp only [concat, List.map_flatMap]; exact hl.1
   · simp only [concat, List.map_flatMap]; exact hl.2
   · exact hasNull_concat cs hbn
